@@ -68,7 +68,7 @@ BUILTIN = {"put": "PokeDirect", "copy": "PokeIndirect", "inc": "IncDirect", "inc
 # --------------------------------------------------------------------------- generator
 FRAMER_NAMES = ["fa", "fb", "fc", "ga", "gb", "ma", "mb", "mc", "top", "xa", "foo"]
 FRAME_NAMES = ["xa", "xb", "xc", "xd", "xe", "fa", "top", "foo", "ma"]
-ACTOR_PARTS = ["foo", "bar", "zed", "moo", "fa", "xa", "top", "poke", "direct", "vf", "ref", "ca"]
+ACTOR_PARTS = ["foo", "bar", "zed", "moo", "fa", "xa", "top", "poke", "direct", "vf", "ref", "ca", "x", "y", "b2", "q"]
 TAG_NAMES = ["ca", "cb", "cc", "cd", "ce", "xb", "bar"]
 PLAIN = ["top", "sub", "q", "data", "state", "goal"]
 
